@@ -116,6 +116,16 @@ func (listener *tcpLineListener) run() {
 			break
 		}
 
+		if listener.stopRequest.Peek() {
+			// accepted after the stop request, before the listening socket got closed: the established connections are being
+			// closed by now and release their descriptors while their sinks are still open, so this connection may have got
+			// the client number of one of them - and it would be closed at once anyway
+			if err := newConn.Close(); err != nil {
+				listener.logger.Warn("error closing connection: ", err)
+			}
+			continue
+		}
+
 		newClientNumber := base.ClientNumber(util.GetFDFromTCPConnOrPanic(newConn))
 		newConnLogger := listener.logger.WithFields(logger.Fields{
 			defs.LabelPart:         "connection",
